@@ -260,10 +260,15 @@ class NPProxy:
         for i in range(n): a[i, i] = 1.0
         return a
     def identity(self, n, dtype=None): return self.eye(n)
+    FLOATS_AS_OBJECTS = False      # opt-in: np.array(concrete, float) gives an object array too (it may later receive symbolic entries by item assignment)
     def array(self, x, dtype=None, **k):
         if _has_sym(x):
             k.pop("copy", None)
             return _np.array(x, dtype=object)
+        if self.FLOATS_AS_OBJECTS and dtype in (float, _np.float64, _F64):
+            a = _np.array(x, dtype=_np.float64); out = _np.empty(a.shape, dtype=object)
+            for idx in _np.ndindex(a.shape): out[idx] = Sym(z3.RealVal(Fraction(float(a[idx]))))
+            return out
         return _np.array(x, dtype=_np_dtype(dtype), **k)
     def asarray(self, x, dtype=None, **k):
         if isinstance(x, _np.ndarray) and x.dtype == object: return x
